@@ -5,7 +5,7 @@ use crate::gen_dlt::*;
 use crate::rng::Rng;
 use crate::scripted::{gen_sched, Sched, ScriptedSource};
 use crate::viol;
-use adlt::dlt::{DltMessage, DLT_MAX_STORAGE_MSG_SIZE};
+use adlt::dlt::{DltMessage, DLT_MSG_PARSER_LOW_MARK};
 use adlt::utils::{DltMessageIterator, LowMarkBufReader};
 use serde::{Deserialize, Serialize};
 use std::sync::Arc;
@@ -87,8 +87,8 @@ pub fn iterate(img: &Arc<Vec<u8>>, bounds: &Arc<Vec<usize>>, start_index: u32, r
             let counts = src.counts.clone();
             let mut rd = LowMarkBufReader::new(
                 src,
-                DLT_MAX_STORAGE_MSG_SIZE + cap_extra,
-                DLT_MAX_STORAGE_MSG_SIZE,
+                DLT_MSG_PARSER_LOW_MARK + cap_extra,
+                DLT_MSG_PARSER_LOW_MARK,
             );
             let (msgs, p, s, a, b) = {
                 let mut it = DltMessageIterator::new(start_index, &mut rd);
